@@ -186,16 +186,16 @@ fn main() {
         std::thread::spawn(move || loop {
             std::thread::sleep(std::time::Duration::from_millis(500));
             let (t, what) = w.lock().unwrap().clone();
-            // A hang is a case that has USED 20 s of processor time (implementation + model) without coming back — or that
+            // A hang is a case that has USED 90 s of processor time (implementation + model) without coming back — or that
             // sits there for ten minutes without using any.  Wall-clock time alone says nothing on a loaded machine.
             let used = cpu_ticks_all().saturating_sub(CASE_CPU0.load(std::sync::atomic::Ordering::Relaxed)) / 100;
-            if (t.elapsed().as_secs() > 20 && used >= 20) || t.elapsed().as_secs() > 600 {
+            if (t.elapsed().as_secs() > 90 && used >= 90) || t.elapsed().as_secs() > 600 {
                 let _ = std::fs::create_dir_all(&replay_dir);
                 let path = format!("{replay_dir}/{prop}-hang.json");
                 let _ = std::fs::write(
                     &path,
                     format!(
-                        "{{\"property\":{},\"kind\":\"oracle\",\"what\":\"a case did not come back within 20 s of processor time (implementation or model hangs)\",\"case\":{}}}\n",
+                        "{{\"property\":{},\"kind\":\"oracle\",\"what\":\"a case did not come back within 90 s of processor time (implementation or model hangs)\",\"case\":{}}}\n",
                         json_str(&prop),
                         json_str(&what)
                     ),
